@@ -753,6 +753,25 @@ func (fp *FuncProof) checkPath(pe *PathEnd) {
 	if fp.sim != nil {
 		items = append(items, fp.sim.eventObligations(pe)...)
 	}
+	if fp.opts.Alloc && fp.fc != nil && fp.fc.AllocSite != nil && (pe.Kind == "cut" || pe.Kind == "return") {
+		// per-event allocation bound: the bytes requested at each allocation site on the path are
+		// bounded by the contract's expression evaluated in the end-of-path state
+		env := fp.ex.cellEnv(pe.St, true)
+		var hs []*Term
+		var qs []*QFact
+		env.hsink, env.qsink = &hs, &qs
+		if bound, err := env.EvalTerm(fp.fc.AllocSite.Expr); err == nil {
+			bound = Resize(bound, 64, true)
+			for _, ev := range pe.St.events {
+				if ev.Kind == "alloc" && ev.Info["bytes"] != nil {
+					b := ev.Info["bytes"]
+					items = append(items, goalItem{name: fmt.Sprintf("%s/%s/alloc-bound/%s", fnName, from, stripLine(ev.Site)), kind: "alloc-bound", t: And(Sle(I64(0), b), Sle(b, bound)), nhyp: -1})
+				}
+			}
+		} else {
+			fp.problem("allocsite bound: %v", err)
+		}
+	}
 	if fp.opts.ExtraExit != nil {
 		for _, o := range fp.opts.ExtraExit(fp, pe) {
 			items = append(items, goalItem{name: fmt.Sprintf("%s/%s/%s/%s", fnName, from, o.Kind, o.Name), kind: o.Kind, t: o.Goal, nhyp: o.NHyp, line: fp.line(o.Pos)})
@@ -1249,4 +1268,11 @@ func (fp *FuncProof) returnOrdinal(pos token.Pos) int {
 		}
 	}
 	return fp.retOrd[pos]
+}
+
+func stripLine(site string) string {
+	if i := strings.LastIndex(site, "@L"); i >= 0 {
+		return site[:i]
+	}
+	return site
 }
